@@ -57,8 +57,6 @@ def az_jobs(rng, quick):
                 add(bytes([fill]) * n, pct, 0)
     # every symbol size through an explicit layer request, payload filling about two thirds of the symbol
     for req in list(range(-4, 0)) + list(range(1, 33)):
-        if quick and req > 8 and req % 4 not in (rng.randrange(4),):
-            continue
         compact, L = req < 0, abs(req)
         n = max(1, int(0.62 * total_bits(L, compact) / 5.2)) if not (compact and L > 0 and total_bits(L, True) > 0 and False) else 1
         if compact:
